@@ -5,7 +5,8 @@
 //!   * `errl.run`: `RbModel.ErrL.Vm.run` on the model-compiled code = real outcome and stdout;
 //!   * `errl.ref`: the big-step reference semantics `RbModel.ErrL.Ref.run` (resume units with `again` / `next`, the handler
 //!     as a nested run) = real outcome and stdout;
-//!   * `errl.wf`: the premise checker `RbModel.ErrL.progWfB`, counted per program.
+//!   * `errl.wf`: the premise checkers `RbModel.ErrL.progWfB` and `wfXB` (together: `progWfXB`, the premise of
+//!     `Thm.ErrLSim.compile_correct_checked`), counted per program.
 //! Usage for debugging: `c05e <file.bas>` prints the answers for one program; `c05e --gen [n]` prints generated programs.
 
 use rb_harness::corpus;
@@ -25,10 +26,10 @@ const BUDGET: u64 = 400_000;
 // handler counts its calls and ends the program after a few, conditions that fail for ever repair themselves.
 
 /// what the failing statement is
-const KINDS: [&str; 30] = [
+const KINDS: [&str; 31] = [
     "asg-div", "asg-ovf", "asg-cast", "print", "if-cond", "elseif-cond", "while-cond", "dotop-while-cond", "dotop-until-cond",
     "loop-while-cond", "loop-until-cond", "for-lo", "for-hi", "for-step", "for-zero", "next-ovf", "next-ovf-step", "next-ovf-neg",
-    "select-expr", "case-item", "case-multi", "case-range", "case-second", "case-is", "read-ood", "read-mismatch", "read-multi",
+    "select-expr", "case-item", "case-item-pending", "case-multi", "case-range", "case-second", "case-is", "read-ood", "read-mismatch", "read-multi",
     "return-no-gosub", "resume-no-err", "resume-label-no-err",
 ];
 
@@ -82,17 +83,22 @@ fn failing(kind: &str) -> FailStmt {
         "for-hi" => d(&["FOR k% = 1 TO 2 / d%", "  PRINT \"k\"; k%;", "NEXT"]),
         "for-step" => d(&["FOR k% = 1 TO 3 STEP 2 / d%", "  PRINT \"k\"; k%;", "NEXT"]),
         "for-zero" => {
-            FailStmt { data: vec![], pre: vec![], stmt: v(&["FOR k% = 1 TO 3 STEP s%", "  PRINT \"k\"; k%;", "NEXT"]), repair: v(&["s% = 2"]), again_ok: false }
+            // RESUME after the repair runs the FOR statement again (finding C05-g: the code under test continues behind NEXT)
+            FailStmt { data: vec![], pre: vec![], stmt: v(&["FOR k% = 1 TO 3 STEP s%", "  PRINT \"k\"; k%;", "NEXT"]), repair: v(&["s% = 2"]), again_ok: true }
         }
-        "next-ovf" => FailStmt { data: vec![], pre: vec![], stmt: v(&["FOR k% = 32766 TO 32767", "  PRINT \"n\";", "NEXT"]), repair: vec![], again_ok: false },
+        // RESUME runs the increment of NEXT again: the handler moves the counter back, the loop goes round again and NEXT fails
+        // again (the handler ends the program after five calls)
+        "next-ovf" => FailStmt { data: vec![], pre: vec![], stmt: v(&["FOR k% = 32766 TO 32767", "  PRINT \"n\"; k%;", "NEXT"]), repair: v(&["k% = 32765"]), again_ok: true },
         "next-ovf-step" => {
-            FailStmt { data: vec![], pre: vec![], stmt: v(&["FOR k% = 32765 TO 32767 STEP 2", "  PRINT \"n\";", "NEXT"]), repair: vec![], again_ok: false }
+            FailStmt { data: vec![], pre: vec![], stmt: v(&["FOR k% = 32765 TO 32767 STEP 2", "  PRINT \"n\"; k%;", "NEXT"]), repair: v(&["k% = 32763"]), again_ok: true }
         }
         "next-ovf-neg" => {
-            FailStmt { data: vec![], pre: vec![], stmt: v(&["FOR k% = -32767 TO -32768 STEP -1", "  PRINT \"n\";", "NEXT"]), repair: vec![], again_ok: false }
+            FailStmt { data: vec![], pre: vec![], stmt: v(&["FOR k% = -32767 TO -32768 STEP -1", "  PRINT \"n\"; k%;", "NEXT"]), repair: v(&["k% = -32766"]), again_ok: true }
         }
         "select-expr" => d(&["SELECT CASE 10 / d%", "CASE 10", "  PRINT \"c\";", "CASE ELSE", "  PRINT \"x\";", "END SELECT"]),
         "case-item" => d(&["SELECT CASE 10", "CASE 10 / d%", "  PRINT \"c\";", "CASE ELSE", "  PRINT \"x\";", "END SELECT"]),
+        // the failing item has an operand pending on the value stack when it fails (finding C05-h: RESUME tests the abandoned 4)
+        "case-item-pending" => d(&["SELECT CASE 14", "CASE 4 + (10 / d%)", "  PRINT \"c\";", "CASE ELSE", "  PRINT \"x\";", "END SELECT"]),
         "case-multi" => d(&["SELECT CASE 10", "CASE 3, 10 / d%, 4", "  PRINT \"c\";", "CASE ELSE", "  PRINT \"x\";", "END SELECT"]),
         "case-range" => d(&["SELECT CASE 10", "CASE 1 TO 20 / d%", "  PRINT \"c\";", "CASE ELSE", "  PRINT \"x\";", "END SELECT"]),
         "case-second" => d(&["SELECT CASE 10", "CASE 3", "  PRINT \"3\";", "CASE 10 / d%", "  PRINT \"c\";", "CASE 10", "  PRINT \"y\";", "END SELECT"]),
@@ -325,19 +331,12 @@ fn cell(kind: &str, pos: &str, mode: &str) -> Option<String> {
 }
 
 /// cells that the generator leaves out because the code under test is known (from reading it) not to implement the
-/// property there; they are NOT part of the green run and are listed in the report of the layer as candidate defects
-fn excluded(kind: &str, pos: &str, mode: &str) -> Option<&'static str> {
-    let handled_next = !matches!(mode, "none" | "goto-0");
-    match (kind, pos, mode) {
-        // find_next from the increment of the negative copy lands in the positive copy of the body (the real run panics)
-        ("next-ovf-neg", _, _) if handled_next => {
-            Some("RESUME NEXT after an overflow of NEXT in a FOR ... STEP <negative> continues inside the positive-step copy of the body")
-        }
-        // RESUME label cuts the register stack to 1 + the label's FOR depth; the label of a routine has depth 0, the FOR whose
-        // body issued the GOSUB loses its frame, the RETURN comes back into a body without one (the real run panics at NEXT)
-        (_, "gosub-in-for", "resume-label-in") => Some("RESUME label inside a GOSUB routine called from a FOR body drops the caller's FOR frame"),
-        _ => None,
-    }
+/// property there. Empty since 26672d3 / 3abb028 / 7249205: the three groups that used to be listed here (`next-ovf-neg` x the
+/// handled modes, `gosub-in-for` x `resume-label-in`, and RESUME after a failed NEXT / a zero step) are part of the matrix
+/// again; what the code under test still gets wrong there (RESUME after a zero step, finding C05-g) is REPORTED by the
+/// comparison with the reference semantics, not left out
+fn excluded(_kind: &str, _pos: &str, _mode: &str) -> Option<&'static str> {
+    None
 }
 
 /// special programs outside the matrix
@@ -722,6 +721,16 @@ fn main() {
     let mut wf: Vec<Option<bool>> = vec![];
     let mut outside_shown = 0;
     for (k, a) in wanswers.iter().enumerate() {
+        // the clauses the simulation proof forced beyond progWfB (RbModel.ErrL.wfXB: CASE items without a pending operand,
+        // STEP a non-zero literal); counted only: the classification below stays with progWfB
+        if a.contains("(x true)") {
+            rep.bump("theorem-premise.wfXB-true");
+        } else if a.contains("(x false)") {
+            rep.bump("theorem-premise.wfXB-false");
+        }
+        if a.starts_with("(wf true (x true)") {
+            rep.bump("theorem-premise.progWfXB-true");
+        }
         if a.starts_with("(wf true") {
             rep.bump("theorem-premise.progWfB-true");
             wf.push(Some(true));
